@@ -1030,6 +1030,15 @@ def intrinsic(interp, f, args, kwargs, node, frame):
             ctx.bound_depth -= 1
         ctx.assume(z3.ForAll([q], z3.Implies(z3.And(q >= 0, q < lift(length)), sym.truth(b))))
         return None
+    if n == "reveal":
+        # opaque/reveal: from here on the hidden ensures of these functions' contracts are assumed at call sites
+        for fobj in args:
+            c = interp.registry.contract_for(fobj)
+            if c is None:
+                raise OutsideSubset("reveal() of a function without contract")
+            ctx.ghost.setdefault("revealed", set()).add(c.label)
+            ctx.ghost.get("axioms_added", set()).discard(c.label)
+        return None
     if n == "old":
         return args[0]
     if n == "note":
@@ -1185,8 +1194,17 @@ def loop_with_invariant(interp, node, frame, it, spec):
         ctx.cover("loop-body/%s/%d" % (spec["contract"].short, spec["ordinal"]))
         raise PathEnd()
     _assume_inv(interp, frame, spec, n, seq)
-    if not (isinstance(n, Sym)):
-        pass
+    # closed forms of arrays filled by the loop: proved from the invariant at exit (obligation inv-use), then the
+    # array is replaced by its closed form so that later expressions are syntactically the specification's
+    for name, lam in spec.get("define_after", {}).items():
+        arr = frame.locals[name]
+        c = spec["contract"]
+        f = interp.registry.eval_clause(interp, lam, c, _inv_env(interp, frame, spec, n, seq))
+        fc = _spec_closure(interp, f)
+        g = ctx.fresh("g", "int")
+        ctx.assume(z3.And(g.e >= 0, g.e < lift(arr.shape[0])))
+        ctx.oblige("inv-use/%s/%d/%s" % (c.short, spec["ordinal"], name), arr.fn(g) == fc(g), clause="%s[j] == (%s)(j) after the loop" % (name, lam))
+        arr.fn = fc
     # after the loop the target holds the last element if there was one (rarely used)
     interp.exec_block(node.orelse, frame)
 
@@ -1365,6 +1383,8 @@ def np_zeros(interp, shape, dtype=float, **k):
 
 def _np_fill(value):
     def f(interp, shape, dtype=float, **k):
+        if isinstance(shape, list):
+            shape = tuple(shape)
         if not isinstance(shape, tuple):
             shape = (shape,)
         dt = "int" if dtype in (int, np.int64, np.int32, "int") else ("bool" if dtype in (bool, np.bool_) else "real")
@@ -1490,7 +1510,12 @@ def np_cumsum(interp, a, *args, **kw):
     c = interp.ctx
     A = sumtheory.materialize(c, a)
     interp.trusted_used.add("model:np.cumsum(a)[k] == SUM(a, k+1)")
-    return SArr(a.shape, lambda k: Sym(sumtheory.SUM(A, lift(k) + 1)), "real")
+    # defining recurrence of the running sum, for every position of this array
+    q = z3.Int(c.fresh_name("q"))
+    c.assume(z3.And(sumtheory.SUM(A, 0) == 0,
+                    z3.ForAll([q], z3.Implies(z3.And(q >= 0, q < lift(a.shape[0])),
+                                              sumtheory.SUM(A, q + 1) == sumtheory.SUM(A, q) + A[q]))))
+    return SArr(a.shape, lambda k: Sym(sumtheory.SUM(A, z3.simplify(lift(k) + 1))), "real")
 
 
 def _hstack_general(interp, parts):
@@ -1536,3 +1561,28 @@ def np_flip(interp, a, axis=None):
     def fn(*idx):
         return f(*[(shape[d] - 1 - i) if d in axes else i for d, i in enumerate(idx)])
     return SArr(shape, fn, a.dtype)
+
+
+class SRange:
+    """range(lo, hi) with symbolic bounds"""
+    __pyvc_symbolic__ = True
+
+    def __init__(self, lo, hi):
+        self.lo, self.hi = lo, hi
+
+    def __pyvc_seq__(self, interp):
+        n = self.hi - self.lo
+        lo = self.lo
+        return SeqView(sym.ite(n > 0, n, 0) if isinstance(n, Sym) else max(n, 0), lambda k: lo + k)
+
+    def __pyvc_iter__(self, interp):
+        raise OutsideSubset("loop over a symbolic range needs an invariant")
+
+
+@model(builtins.range)
+def py_range(interp, *args):
+    if len(args) == 1:
+        return SRange(0, args[0])
+    if len(args) == 2:
+        return SRange(args[0], args[1])
+    raise OutsideSubset("range with symbolic step")
